@@ -316,6 +316,17 @@ fn rare_shape_devs_inner(n: usize, case_twin: bool) -> Vec<Dev> {
             true
         }));
     }
+    d.push(dev("every disabled variant is written #[strum(serialize = \"zq<i>\", disabled, message = \"m\")] (keys before and after `disabled`)", &["disattrs"], |s| {
+        let mut any = false;
+        for (i, v) in s.variants.iter_mut().enumerate() {
+            if v.disabled && v.serialize.is_empty() && v.to_string.is_none() && v.message.is_none() {
+                v.serialize = vec![format!("zq{}", i)];
+                v.message = Some("m".into());
+                any = true;
+            }
+        }
+        any
+    }));
     if case_twin && n >= 2 {
         d.push(dev("v1.ident = v0.ident in upper case (identifiers that differ only in letter case)", &["id1"], |s| {
             if s.variants.len() < 2 {
